@@ -353,6 +353,89 @@ theorem forest_idx_le (n : Nat) (hn : n < 2^63) (k : Nat) (r : Row) (hr : (k, r)
   have := TF.MmrE.nodeIdx_pos r.height j
   omega
 
+/-! ## every node index is a coordinate pair; chains of parents in the table of the forest -/
+
+/-- every node index `1 … 2^64 − 1` is `nodeIdx l j` for exactly one pair `(l, j)` (uniqueness: `nodeIdx_inj`) -/
+theorem exists_coords (x : Nat) (h1 : 1 ≤ x) (h2 : x < 2^64) : ∃ l j, x = nodeIdx l j := by
+  have h64 : (2:Nat)^64 = 18446744073709551616 := by decide
+  obtain ⟨r, hr, hidx⟩ := rows_idx_complete 63 0 0 0 0 false 0 1 [] x (by omega) (by omega)
+  have e : tree 0 0 63 = tree (nodesOf (0 * 2^63)) (0 * 2^63) 63 := by
+    rw [Nat.zero_mul, nodesOf_zero]
+  rw [e] at hr
+  obtain ⟨j, _, _, hi, _⟩ := rows_coords 63 0 _ _ _ _ _ _ r hr
+  exact ⟨r.height, j, by rw [← hidx, hi]⟩
+
+/-- one step up in the table of the explicit forest, in coordinates: a row at `(L, J)` that has a parent has its
+    parent at `(L+1, J/2)` and its sibling at `(L, sibBlk J)` -/
+theorem forest_step_coords (n : Nat) (hn : n < 2^63) (k : Nat) (r : Row) (hr : (k, r) ∈ (forest n).rows)
+    (hp : r.parent ≠ 0) (L J : Nat) (hidx : r.idx = nodeIdx L J) :
+    r.parent = nodeIdx (L + 1) (J / 2) ∧ r.sibling = nodeIdx L (sibBlk J) := by
+  obtain ⟨r', hr', e1, e2, _, _, _, _, e7⟩ := forest_row_in_s1 n hn k r hr
+  obtain ⟨e8, e9⟩ := e7 hp
+  have hp' : r'.parent ≠ 0 := by rw [← e8]; exact hp
+  have hsp := siblingAndParent_rows r' hr' hp'
+  obtain ⟨_, hb2, hb3, _⟩ := nonroot_bounds r' hr' hp'
+  have h64 : (2:Nat)^64 = 18446744073709551616 := by decide
+  have hlt : nodeIdx L J < 2^64 := by rw [← hidx, e1]; omega
+  -- the level of the row is `L`
+  have hown := rll_own_rows r' hr'
+  rw [← e1, hidx, TF.MmrE.rll_spec L J hlt] at hown
+  have hL : L = r'.height := (Prod.mk.inj (Option.some.inj hown)).2
+  have hpar := TF.MmrE.anc_le_top L J 1 hlt (by omega)
+  have ea : anc L J 1 = nodeIdx (L + 1) (J / 2) := by simp [TF.MmrE.anc]
+  rw [ea] at hpar
+  have hspec := TF.MmrE.siblingAndParent_spec L J (by omega) (by omega)
+  rw [← e1, hidx, hspec] at hsp
+  have h := Option.some.inj hsp
+  have h2 := (Prod.mk.inj h).2
+  rw [e8, e9]
+  exact ⟨(Prod.mk.inj h2).2.symm, (Prod.mk.inj h2).1.symm⟩
+
+/-- **`get_authentication_path_node_indices` for a node and an ancestor in the explicit forest**: let
+    `c 0, c 1, …, c d` be rows of the table of the forest with `n < 2^63` leaves such that each `c (t+1)` is the
+    parent recorded for `c t`.  Then from the node `c 0` to its ancestor `c d` (with the node count of the forest) the
+    function returns `Some` of the siblings recorded for `c 0, …, c (d−1)`, in this order -/
+theorem forest_auth_path_chain (n : Nat) (hn : n < 2^63) (d : Nat) (c : Nat → Row) (kk : Nat → Nat)
+    (hrows : ∀ t, t ≤ d → (kk t, c t) ∈ (forest n).rows)
+    (hpar : ∀ t, t < d → (c t).parent = (c (t+1)).idx) :
+    get_authentication_path_node_indices (c 0).idx (c d).idx (forest n).nodes
+      = some (some ((List.range d).map fun t => (c t).sibling)) := by
+  obtain ⟨_, j, _, _, _, _, hidx0, _⟩ := forest_row_facts n hn (kk 0) (c 0) (hrows 0 (by omega))
+  generalize (c 0).height = l at hidx0
+  have hall : ∀ t, t ≤ d → (c t).idx = anc l j t := by
+    intro t
+    induction t with
+    | zero => intro _; rw [TF.MmrE.anc_zero]; exact hidx0
+    | succ t ih =>
+      intro ht
+      have hi := ih (by omega)
+      have hp : (c t).parent ≠ 0 := by
+        rw [hpar t (by omega)]
+        have := (forest_idx_le n hn _ _ (hrows (t+1) ht)).1
+        omega
+      have := (forest_step_coords n hn _ _ (hrows t (by omega)) hp (l + t) (j / 2^t) hi).1
+      rw [← hpar t (by omega), this]
+      unfold TF.MmrE.anc
+      rw [Nat.div_div_eq_div_mul, ← Nat.pow_succ]
+      rfl
+  have hsib : (List.range d).map (fun t => (c t).sibling) = sibsUp l j d := by
+    unfold TF.MmrE.sibsUp
+    apply List.map_congr_left
+    intro t ht
+    have ht' := List.mem_range.mp ht
+    have hp : (c t).parent ≠ 0 := by
+      rw [hpar t ht']
+      have := (forest_idx_le n hn _ _ (hrows (t+1) (by omega))).1
+      omega
+    exact (forest_step_coords n hn _ _ (hrows t (by omega)) hp (l + t) (j / 2^t) (hall t (by omega))).2
+  have hnodes : (forest n).nodes ≤ 2 * n := by rw [forest_eq]; exact nodesOf_le n
+  have h64 : (2:Nat)^64 = 2 * 2^63 := by decide
+  have hd := (forest_idx_le n hn _ _ (hrows d (Nat.le_refl _))).2
+  rw [hsib, hall d (Nat.le_refl _), hidx0]
+  rw [hall d (Nat.le_refl _)] at hd
+  exact TF.MmrE.get_auth_path_ancestor l j d _ (by omega)
+    (fun t ht => by rw [← hall t (by omega)]; exact (forest_idx_le n hn _ _ (hrows t (by omega))).2)
+
 /-- in the table of a root, a row without parent has no sibling either, and a leaf-level row has no children -/
 theorem forest_row_zero_cols (n : Nat) (hn : n < 2^63) (k : Nat) (r : Row) (hr : (k, r) ∈ (forest n).rows) :
     (r.parent = 0 → r.sibling = 0) ∧ (r.height = 0 → r.left = 0) := by
